@@ -90,6 +90,7 @@ def install() -> None:
 
 
 _WS = re.compile(r"\s+")
+_SCRATCH = re.compile(r"/[\w/.-]*fssim-\d+-[\w.-]+")
 
 
 class Sim:
@@ -128,7 +129,7 @@ class Sim:
         t = _WS.sub(" ", text).strip()
         if self.scratch:
             t = t.replace(self.scratch, "<D>")
-        return t
+        return _SCRATCH.sub("<D>", t)  # scratch paths carry the pid: never part of the event log
 
     def note(self, *rec: Any) -> None:
         """Append to the event log (never draws randomness, never reads a clock)."""
